@@ -336,18 +336,22 @@ func nontrivial(root *gen.NodeBP) bool {
 
 func TestCheckLaws(t *testing.T) {
 	s := harness.NewSub("equality-laws",
-		"random trees (<= 25 nodes, depth <= 4) over the node kinds with their own equality rule (plain, BIRT/DEAT/BURI/BAPM, RESI, EVEN, DATE incl. constrained/phrase/unparsable/alternative spellings, _UID well-formed/with checksum/malformed, NAME, PLAC, INDI and FAM in a document, role nodes), biased to same-kind and duplicate siblings; per tree: deep copy + aliasing mutation, ALL permutations of every child list with <= 4 entries plus random shuffles at every level, symmetry against an independent tree / an edited copy, and insert/delete/change edits at random positions; non-trivial = tree has >= 3 nodes and a non-plain kind or duplicate siblings; distinct by (law, case)")
+		"random trees (<= 25 nodes, depth <= 4; one in 40 with 40..160 further children under one node: plain, exact DATE, _UID and RESI nodes over a pool half their number) over the node kinds with their own equality rule (plain, BIRT/DEAT/BURI/BAPM, RESI, EVEN, DATE incl. constrained/phrase/unparsable/alternative spellings, _UID well-formed/with checksum/malformed, NAME, PLAC, INDI and FAM in a document, role nodes), biased to same-kind and duplicate siblings; per tree: deep copy + aliasing mutation, ALL permutations of every child list with <= 4 entries plus random shuffles at every level, symmetry against an independent tree / an edited copy, and insert/delete/change edits at random positions; non-trivial = tree has >= 3 nodes and a non-plain kind or duplicate siblings; distinct by (law, case)")
 	s.Rapid(t, harness.Share(harness.Pick(40000, 4000000)), 70, func(rt *rapid.T) {
-		tree := gen.EqTree(gen.EqTreeOpts{MaxNodes: 25, Roles: true}).Draw(rt, "tree")
+		tree := gen.EqTree(gen.EqTreeOpts{MaxNodes: 25, Roles: true, Wide: 40}).Draw(rt, "tree")
 		nt := nontrivial(tree)
 		base := kinds(tree)
+		wide := gen.MaxFanout(tree) >= 40
+		if wide {
+			base = append(base, "wide:>=40-siblings")
+		}
 		if gen.HasSameKindSiblings(tree) {
 			base = append(base, "same-kind-siblings")
 		}
 		run := func(c eqCase, extra ...string) {
 			cls := append(append([]string{"law:" + c.Law}, base...), extra...)
 			s.Eval(harness.JSON(c), nt, cls...)
-			if nt {
+			if nt && !wide {
 				s.MaybeSample(c)
 			}
 			if fl := check(c); fl != nil && s.Report(c, fl) {
